@@ -14,6 +14,72 @@ type gen struct {
 	h     *harness
 	r     *rand.Rand
 	prune bool // prune-focused mix
+	script []Op // prune mode: scripted history (ids are predictable on a fresh state), then random ops
+}
+
+// pruneScript builds a history of 2-4 changes whose ready order is independent of their spawn order, some left
+// unfinished (Done tasks listed before pending ones), some empty, some guarded by a pending predicate, plus
+// unlinked tasks; then a Prune near the count limit / retention boundaries.
+func (g *gen) pruneScript() []Op {
+	r := g.r
+	ops := []Op{}
+	hour := H - 30 - r.Intn(200)
+	step := func(max int) { hour += r.Intn(max + 1) }
+	k := 2 + r.Intn(3)
+	task := 0
+	tasksOf := map[int][]int{}
+	for c := 1; c <= k; c++ {
+		step(40)
+		ops = append(ops, Op{"Tick", M{"h": hour}}, Op{"NewChange", M{"kind": "install", "summary": "s1"}})
+		for n := []int{0, 1, 2, 2, 3}[r.Intn(5)]; n > 0; n-- {
+			task++
+			ops = append(ops, Op{"NewTask", M{"kind": "link", "summary": "t1"}}, Op{"AddTask", M{"c": c, "t": task}})
+			tasksOf[c] = append(tasksOf[c], task)
+		}
+		if r.Intn(4) == 0 {
+			task++
+			ops = append(ops, Op{"NewTask", M{"kind": "download", "summary": "t 2"}}) // stays unlinked
+		}
+		if r.Intn(5) == 0 {
+			ops = append(ops, Op{"ChangeSet", M{"c": c, "k": "k1", "v": g.picks([]string{"true", "true", "false"})}})
+		}
+	}
+	if r.Intn(3) == 0 {
+		ops = append(ops, Op{"Register", M{"k": "k1"}})
+	}
+	for _, c := range r.Perm(k) {
+		c++
+		ts := tasksOf[c]
+		if len(ts) == 0 {
+			continue
+		}
+		if r.Intn(3) > 0 {
+			step(25)
+		}
+		ops = append(ops, Op{"Tick", M{"h": hour}})
+		finish := r.Intn(10) < 7
+		for i, t := range ts {
+			switch {
+			case finish:
+				ops = append(ops, Op{"SetStatus", M{"t": t, "s": g.picks([]string{"Done", "Done", "Done", "Error", "Undone", "Hold"})}})
+			case i == 0 && len(ts) > 1:
+				ops = append(ops, Op{"SetStatus", M{"t": t, "s": "Done"}})
+			case i == 1:
+				ops = append(ops, Op{"SetStatus", M{"t": t, "s": g.picks([]string{"Doing", "Doing", "Do", "Undoing", "Abort"})}})
+			}
+		}
+	}
+	if hour > H-1 {
+		hour = H - 1
+	}
+	ops = append(ops, Op{"Tick", M{"h": H - 1 + r.Intn(3)}})
+	start := 0
+	if r.Intn(2) == 0 {
+		start = (H - r.Intn(120)) * TU
+	}
+	ops = append(ops, Op{"Prune", M{"start": start, "pw": g.pick([]int{1, 10, 24, 48, 100, 150, 250}),
+		"aw": g.pick([]int{1, 24, 72, 100, 150, 250}), "mx": g.pick([]int{0, 1, 1, 2, 2, 3, 500})}})
+	return ops
 }
 
 var clockVals = []int{H - 700, H - 690, H - 673, H - 672, H - 671, H - 400, H - 200, H - 170, H - 169, H - 168, H - 167,
@@ -147,6 +213,11 @@ func (g *gen) pruneOK() bool {
 
 func (g *gen) next() (Op, bool) {
 	h, r := g.h, g.r
+	if len(g.script) > 0 {
+		op := g.script[0]
+		g.script = g.script[1:]
+		return op, true
+	}
 	h.st.Lock()
 	defer h.st.Unlock()
 	tids, cids := g.taskIDs(), g.changeIDs()
